@@ -109,8 +109,8 @@ def judge(cases, results, rep, prop):
                 sig = dict(kind="internal-on-public", route=sorted(reached & INTERNAL_BOUND)[0])
                 rep.violation(sig, dict(replay, violation=dict(sig, line=o["line"], status=o["status"])))
             # drift: the descriptive model predicted something else (not a verdict)
-            if real != (c["status"], c["reached"]) and c["bad"] and not (reached & INTERNAL_BOUND):
-                st["repaired"] += 1   # the descriptive model predicted a violation the code no longer shows
+            if real != (c["status"], c["reached"]) and real == tuple(c.get("presc", ())):
+                st["repaired"] += 1   # the code behaves like the prescriptive model here: a deviation has been repaired
             elif real != (c["status"], c["reached"]):
                 st["drift"].append("%s [%s] %s/%s: model %s/%s, real %s/%s (HTTP %d)" % (
                     o["line"], deviations(c["tok"]) or "valid", c["cfg"], c["port"], c["status"], c["reached"], real[0], real[1], o["status"]))
@@ -186,6 +186,12 @@ def run(prop, tier, seed, replay=None):
             c["fam"] = fam
         predicted_bad += sum(1 for c in g.printed if c["bad"])
         models.append(dict(cfg=base + ".gen.cfg", states=g.distinct, cases=len(g.printed), wall_s=round(g.wall, 1)))
+        gp = vlib.tlc("HttpGuard", base + ".genp.cfg", workers=WORKERS, timeout=900)
+        if not gp.ok:
+            raise Inconclusive("TLC %s.genp: %s %s" % (base, gp.violation, gp.error))
+        presc = {json.dumps([tkey(c), c["tok"]], sort_keys=True): (c["status"], c["reached"]) for c in gp.printed}
+        for c in g.printed:
+            c["presc"] = list(presc[json.dumps([tkey(c), c["tok"]], sort_keys=True)])
         cases += g.printed
     if not quick:
         missing = [a for a in ACTIONS if not cover.get(a)]
@@ -212,8 +218,8 @@ def run(prop, tier, seed, replay=None):
     if ndrift > max(5, st["requests"] // 20) and not rep.violations:
         rep.inconclusive.append("%d of %d real verdicts differ from the model's prediction: the descriptive model is out of date" % (ndrift, st["requests"]))
     if st["repaired"]:
-        rep.notes.append("NOTE: %d violations predicted by the descriptive model (deviation constants of HttpGuard.tla) were NOT observed on the "
-                         "real code: a deviation has been repaired, switch the constant in spec/cfg/HttpGuard.*.gen.cfg" % st["repaired"])
+        rep.notes.append("NOTE: %d real verdicts follow the PRESCRIPTIVE model instead of the descriptive one: a deviation named by a constant of "
+                         "HttpGuard.tla has been repaired in the code, switch it in spec/cfg/HttpGuard.*.gen.cfg" % st["repaired"])
     if not st["granted"] or not st["denied"]:
         rep.inconclusive.append("vacuity: granted=%d denied=%d" % (st["granted"], st["denied"]))
     cov = dict(evaluations=st["requests"], distinct_nontrivial=len(st["nontrivial"]), exhaustive=True,
@@ -225,7 +231,7 @@ def run(prop, tier, seed, replay=None):
                     % ((1, "the 9 core tokens") if quick else (2, "all tokens with at most 1 deviation")),
                samples=st["samples"], abstract_cases=len(cases), states=states, transitions=transitions, models=models,
                action_coverage=cover, drift=ndrift, drift_samples=sorted(set(st["drift"]))[:5],
-               model_predicted_violations=predicted_bad, predicted_violations_not_observed=st["repaired"], requests_granted=st["granted"], requests_denied_401=st["denied"],
+               model_predicted_violations=predicted_bad, verdicts_matching_prescriptive_model_only=st["repaired"], requests_granted=st["granted"], requests_denied_401=st["denied"],
                invalid_credentials_on_unrouted_targets=st["unchecked401"], known_findings=sorted(rep.known))
     vlib.write_evidence(prop, tier, seed, "exploration", cov, time.time() - t0, len(rep.violations),
                         ["the validity of a forged credential is known by construction (attributes -> bytes in harness/drivers/httpguard)",
